@@ -3,6 +3,9 @@
 #include <yaclib/fault/injector.hpp>
 
 #include <yaclib_std/thread>
+#ifdef YACLIB_VERIF
+#  include <yaclib/fault/verif_hook.hpp>
+#endif
 
 namespace yaclib::detail {
 
@@ -27,6 +30,11 @@ bool Injector::NeedInject() noexcept {
   if (_pause) {
     return false;
   }
+#ifdef YACLIB_VERIF
+  if (verif::gHooks != nullptr && verif::gHooks->inject != nullptr) {
+    return verif::gHooks->inject();
+  }
+#endif
   if (_count.fetch_add(1, std::memory_order_relaxed) >= sYieldFrequency) {
     Reset();
     return true;
